@@ -110,14 +110,21 @@ KInterest(bn, bor) ==
       post == [st EXCEPT !.reserves[rn].borrowed_sf = BMul(BOfInt(bor), BPow2(60))]
   IN Do(a, "ok", post, [reserves |-> [x \in {rn} |-> [borrowed_sf |-> post.reserves[x].borrowed_sf]]])
 
+\* somebody sends a unit of the token straight to the bank's pass-through vault
+KDonate(bn) ==
+  LET v == st.banks[bn].vault_liq
+      a == [op |-> "fund_vault", mint |-> st.banks[bn].mint, dst |-> v, amount |-> 1]
+      post == [st EXCEPT !.tok[v].amount = BAdd(@, BOne)]
+  IN Do(a, "ok", post, [tok |-> [t \in {v} |-> [amount |-> post.tok[t].amount]]])
+
 VNext ==
   /\ depth < KMaxDepth
   /\ \/ \E d \in Ticks : KTick(d)
      \/ \E an \in Accts, bn \in KBanks, amt \in KAmounts : KDeposit(an, bn, amt) \/ KWithdraw(an, bn, amt, FALSE)
      \/ \E an \in Accts, bn \in KBanks : KWithdraw(an, bn, 0, TRUE)
-     \/ \E bn \in KBanks : KRefresh(bn)
+     \/ \E bn \in KBanks : KRefresh(bn) \/ KDonate(bn)
      \/ \E bn \in KBanks, bor \in KBorrowed : KInterest(bn, bor)
 VSpec == Init /\ [][VNext]_vars
-VView == <<View, [b \in KBanks |-> <<st.reserves[ResOf(b)].avail, st.reserves[ResOf(b)].supply, st.reserves[ResOf(b)].slot, st.reserves[ResOf(b)].borrowed_sf,
+VView == <<View, [b \in KBanks |-> <<TokOf(st, st.banks[b].vault_liq), st.reserves[ResOf(b)].avail, st.reserves[ResOf(b)].supply, st.reserves[ResOf(b)].slot, st.reserves[ResOf(b)].borrowed_sf,
                                      st.obligations[OblOf(b)].amount>>], st.clock.slot>>
 =============================================================================
